@@ -709,22 +709,52 @@ def r5_negation_not_dropped(ctx) -> None:
                     "so e.g. 'not a=1' (number), 'not a is null', comparisons and field references are rendered without any negation", cm.loc)
     if not unswapped:
         r.ok("C01.R5", cm.qual, f"every leaf template is in the swap set {swapped}", cm.loc)
-    # parity of the ancestor test
+    # when the negated templates are swapped in: TextQueryBackend.convert_condition_field_eq_val interpreted (sa.tabulate,
+    # Proxy) on leaves below chains of ancestors, with a recording context manager
+    import types as _types
+    from ..tabulate import Proxy as _Pn, call_method as _cmn, Raised as _Rn
     fe = prog.func(TQ + ".convert_condition_field_eq_val")
     inner = next((g for g in prog.funcs.values() if g.qual.startswith(fe.qual + ".<locals>.") and g.name == "is_parent_not"), None)
-    if inner is None:
-        raise AnalysisError(f"{fe.qual}: is_parent_not not found")
-    src = unparse(inner.node)
-    if "if isinstance(cond.parent, ConditionNOT):\n        return True" in src and "not is_parent_not" not in src:
-        r.violation("C01.R5", inner.qual, "if isinstance(cond.parent, ConditionNOT): return True",
-                    "the ancestor test stops at the first enclosing NOT and does not count negations: under two nested NOTs (not (sel and not (…))) the leaf is rendered negated although the two negations cancel", inner.loc)
+    stn = _type_standins(ctx)
+    NOT_, AND_, OR_ = stn["ConditionNOT"], stn["ConditionAND"], stn["ConditionOR"]
+
+    def swap_decision(chain, mode):
+        parent = None
+        for k in reversed(chain):  # outermost first
+            node = k()
+            node.__dict__["parent"] = parent
+            parent = node
+        leaf = _types.SimpleNamespace(parent=parent, field="f", value=stn["SigmaString"](), source=None)
+        seen = []
+        class _CM:
+            def __init__(self, flag): self.flag = flag
+            def __enter__(self): seen.append(bool(self.flag))
+            def __exit__(self, *a): return False
+        envn = dict(stn)
+        envn["super"] = lambda: _types.SimpleNamespace(convert_condition_field_eq_val=lambda c_, s_: "CONVERTED")
+        me = _Pn(prog, TQ, envn, {"convert_not_as_not_eq": mode, "not_equals_context_manager": lambda use_negated_expressions=False, **k: _CM(use_negated_expressions)}, interp_kwargs={"max_steps": 4000})
+        try:
+            out = _cmn(prog, TQ, fe.name, me, envn, leaf, object(), interp_kwargs={"max_steps": 4000})
+        except _Rn as ex:
+            return f"raises {ex}"
+        return (seen[0] if len(seen) == 1 else seen) if out == "CONVERTED" else f"returns {out!r}"
+    chains = {"no ancestor": [], "below NOT": [NOT_], "below AND": [AND_], "below NOT > AND": [NOT_, AND_], "below AND > NOT": [AND_, NOT_], "below OR > NOT > AND": [OR_, NOT_, AND_],
+              "below NOT > NOT": [NOT_, NOT_], "below NOT > AND > NOT": [NOT_, AND_, NOT_], "below NOT > NOT > NOT": [NOT_, NOT_, NOT_]}
+    wrong_mode = [f"{nm}, not-equals mode off: {swap_decision(ch, False)!r}" for nm, ch in chains.items() if swap_decision(ch, False) is not False]
+    single = {nm: swap_decision(ch, True) for nm, ch in chains.items() if sum(1 for k in ch if k is NOT_) <= 1}
+    want_single = {nm: (sum(1 for k in ch if k is NOT_) == 1) for nm, ch in chains.items() if sum(1 for k in ch if k is NOT_) <= 1}
+    parity_bad = [f"{nm}: swapped={swap_decision(ch, True)!r}" for nm, ch in chains.items() if sum(1 for k in ch if k is NOT_) >= 2 and swap_decision(ch, True) is not (sum(1 for k in ch if k is NOT_) % 2 == 1)]
+    if wrong_mode or single != want_single:
+        diff = wrong_mode or [f"{nm}: swapped={single[nm]!r}" for nm in single if single[nm] != want_single[nm]]
+        r.violation("C01.R5", fe.qual, "negation = is_parent_not(cond) and self.convert_not_as_not_eq", f"the swap is not tied to (NOT ancestor ∧ not-equals mode): {diff[0]}", fe.loc)
     else:
-        r.ok("C01.R5", inner.qual, "ancestor test accounts for the parity of enclosing NOTs", inner.loc)
-    neg = [n for n in walk_no_nested(fe.node) if isinstance(n, ast.Assign) and unparse(n.targets[0]) == "negation"]
-    if neg and unparse(neg[0].value) == "is_parent_not(cond) and self.convert_not_as_not_eq":
-        r.ok("C01.R5", fe.qual, "templates are swapped only under a NOT ancestor and only in not-equals mode", fe.loc)
+        r.ok("C01.R5", fe.qual, "templates are swapped only under a NOT ancestor and only in not-equals mode (interpreted on 6 ancestor chains x both modes)", fe.loc)
+    pw = fe  # keyed by the converter, not by the nested helper that holds the test today
+    if parity_bad:
+        r.violation("C01.R5", pw.qual, "if isinstance(cond.parent, ConditionNOT): return True",
+                    f"the ancestor test stops at the first enclosing NOT and does not count negations: under two nested NOTs (not (sel and not (…))) the leaf is rendered negated although the two negations cancel ({parity_bad[0]})", pw.loc)
     else:
-        r.violation("C01.R5", fe.qual, "negation = is_parent_not(cond) and self.convert_not_as_not_eq", "the swap is not tied to (NOT ancestor ∧ not-equals mode)", fe.loc)
+        r.ok("C01.R5", pw.qual, "ancestor test accounts for the parity of enclosing NOTs", pw.loc)
     # leaf handlers that synthesise an OR: inside the not-equals swap every alternative is rendered with the negated
     # template, so the link between them has to become AND (not (a or b) = not a and not b)
     for q, f in sorted(prog.funcs.items()):
@@ -1168,10 +1198,19 @@ def r11_linking(ctx) -> None:
     else:
         r.ok("C01.R11", dp.qual, "1 item → itself; n items → item_linking(items) over all items (interpreted: 0/1/2/4 items, both linkings)", dp.loc)
     am = prog.func("sigma.modifiers.SigmaAllModifier.modify")
-    if "self.detection_item.value_linking = ConditionAND" in unparse(am.node):
-        r.ok("C01.R11", am.qual, "'all' → value_linking = ConditionAND", am.loc)
+    import types as _types2
+    from ..tabulate import Proxy as _Pa, call_method as _cma, Raised as _Ra
+    class ConditionAND: pass
+    item_a = _types2.SimpleNamespace(value_linking="before", negated=False, field="f")
+    try:
+        _cma(prog, "sigma.modifiers.SigmaAllModifier", "modify", _Pa(prog, "sigma.modifiers.SigmaAllModifier", {"ConditionAND": ConditionAND}, {"detection_item": item_a, "applied_modifiers": [], "source": None}, interp_kwargs={"max_steps": 2000}),
+             {"ConditionAND": ConditionAND}, ["v"], interp_kwargs={"max_steps": 2000})
+    except _Ra:
+        pass
+    if item_a.value_linking is ConditionAND:
+        r.ok("C01.R11", am.qual, "'all' → value_linking = ConditionAND (interpreted)", am.loc)
     else:
-        r.violation("C01.R11", am.qual, "value_linking = ConditionAND", "'all' modifier does not switch value linking to AND", am.loc)
+        r.violation("C01.R11", am.qual, "value_linking = ConditionAND", f"'all' modifier does not switch value linking to AND (it is {item_a.value_linking!r} afterwards)", am.loc)
     r.floor("C01.R11", 9)
 
 
